@@ -23,6 +23,10 @@ RULE = ("every subset of 3 valid deployment names x per deployment {secret absen
         "create_backup_archive -> read_backup_archive with the same password compared field by field (names, CR dict with tricky values, "
         "secret map, generation, manifest); every encrypted archive is also read with 4 different passwords (incl. none), which must fail; "
         "PBKDF2 iterations lowered to 1000 for breadth, 2 cases at the real 600000; non-trivial = archives with at least one deployment")
+from vmc.tables import _ROUND6 as _R6  # noqa: E402
+
+RULE += _R6["C33"]
+
 
 
 def run(tier: str, seed: int) -> Any:
